@@ -74,7 +74,8 @@ var c15Defects = []string{"missing-file", "empty-file", "yaml-syntax", "wrong-ty
 // syscall name of another architecture (socketcall, mmap2, waitpid, stat64 ...), which is just as unknown here.
 func c15UnknownName(pos int) string {
 	if pos%2 == 0 {
-		return []string{"no_such_syscall", "getppidd", "sys_read", "READ"}[(pos/2)%4]
+		// (the last ones would be syscalls if something expanded variables or stripped prefixes; nothing does)
+		return []string{"no_such_syscall", "getppidd", "sys_read", "READ", "${NOSUCHVAR:sync}", "sys_sync", "${PROBE_NAME}", "__NR_sync"}[(pos/2)%8]
 	}
 	var foreign []string
 	info := spec.ArchInfo("x86_64")
@@ -465,7 +466,7 @@ func runSandbox(c *c15Case, text string, writeFile bool) (*c15Run, error) {
 	args = append(args, target, "arg1")
 	cmd := exec.CommandContext(ctx, sb, args...)
 	cmd.Dir = cwd
-	cmd.Env = append([]string{"PATH=/usr/bin:/bin", "HOME=" + home, "PROBE_MARKER=" + marker, "PROBE_JOB=" + jobPath}, c.Env...)
+	cmd.Env = append([]string{"PATH=/usr/bin:/bin", "HOME=" + home, "PROBE_MARKER=" + marker, "PROBE_JOB=" + jobPath, "PROBE_NAME=sync"}, c.Env...)
 	if c.Uid != 0 {
 		cmd.SysProcAttr = &syscall.SysProcAttr{Credential: &syscall.Credential{Uid: uint32(c.Uid), Gid: uint32(c.Uid)}}
 	}
